@@ -21,8 +21,9 @@ import (
 )
 
 type op struct {
-	Kind string `json:"kind"` // req | set | del
-	Rt   int    `json:"rt"`
+	Kind  string `json:"kind"` // req | set | del | hostset | hostunset
+	Quiet bool   `json:"quiet"` // nothing is read from any runtime after this operation
+	Rt    int    `json:"rt"`
 	K    string `json:"k"` // hex
 	V    string `json:"v"` // hex
 }
@@ -115,6 +116,14 @@ func child(specFile string) {
 					panic(err)
 				}
 			}
+		case "hostset": // the embedding program changes its own environment
+			os.Setenv(unhx(o.K), unhx(o.V))
+		case "hostunset":
+			os.Unsetenv(unhx(o.K))
+		}
+		if o.Quiet {
+			w.WriteString("null\n")
+			continue
 		}
 		snap()
 	}
@@ -151,11 +160,15 @@ func genValue(r *lib.Rand) string {
 func coqOp(o op) string {
 	switch o.Kind {
 	case "req":
-		return "Req " + lib.Nat(o.Rt)
+		return "RtOp (Req " + lib.Nat(o.Rt) + ")"
 	case "set":
-		return "SetVar " + lib.Nat(o.Rt) + " " + lib.ZsStr(unhx(o.K)) + " " + lib.ZsStr(unhx(o.V))
+		return "RtOp (SetVar " + lib.Nat(o.Rt) + " " + lib.ZsStr(unhx(o.K)) + " " + lib.ZsStr(unhx(o.V)) + ")"
+	case "hostset":
+		return "HostSet " + lib.ZsStr(unhx(o.K)) + " " + lib.ZsStr(unhx(o.V))
+	case "hostunset":
+		return "HostUnset " + lib.ZsStr(unhx(o.K))
 	default:
-		return "DelVar " + lib.Nat(o.Rt) + " " + lib.ZsStr(unhx(o.K))
+		return "RtOp (DelVar " + lib.Nat(o.Rt) + " " + lib.ZsStr(unhx(o.K)) + ")"
 	}
 }
 
@@ -210,8 +223,25 @@ func main() {
 				ops = append(ops, op{Kind: "req", Rt: rt})
 			}
 		}
+		hostKey := func() string {
+			if len(pairs) > 0 && r.Chance(70) {
+				return pairs[r.Intn(len(pairs))][0]
+			}
+			return genName(r, map[string]bool{})
+		}
 		for i := 0; i < nops; i++ {
 			rt := r.Intn(nrt)
+			if r.Chance(22) { // the host changes its own environment; sometimes right after a require that nobody has read from yet
+				if r.Chance(45) {
+					ops = append(ops, op{Kind: "req", Rt: rt, Quiet: true})
+				}
+				if r.Chance(70) {
+					ops = append(ops, op{Kind: "hostset", K: hx(hostKey()), V: hx(genValue(r)), Quiet: r.Chance(50)})
+				} else {
+					ops = append(ops, op{Kind: "hostunset", K: hx(hostKey()), Quiet: r.Chance(50)})
+				}
+				continue
+			}
 			switch k := r.Intn(10); {
 			case k < 4:
 				ops = append(ops, op{Kind: "req", Rt: rt})
@@ -233,6 +263,7 @@ func main() {
 				ops = append(ops, op{Kind: "del", Rt: rt, K: hx(key)})
 			}
 		}
+		ops[len(ops)-1].Quiet = false // the history ends with a reading
 		spec := childSpec{Runtimes: nrt, Ops: ops}
 		sb, _ := json.Marshal(spec)
 		specFile := fmt.Sprintf("%s/spec%d.json", tmp, c)
@@ -252,6 +283,10 @@ func main() {
 		var hostAfter []string
 		var snaps []snapshot
 		for _, ln := range lines {
+			if ln == "null" { // nothing was read after this operation
+				obsCoq = append(obsCoq, "[]")
+				continue
+			}
 			var s snapshot
 			if err := json.Unmarshal([]byte(ln), &s); err != nil {
 				panic(err)
@@ -320,9 +355,17 @@ func main() {
 func descOps(ops []op) []string {
 	var r []string
 	for _, o := range ops {
+		q := ""
+		if o.Quiet {
+			q = " (nothing read afterwards)"
+		}
 		switch o.Kind {
+		case "hostset":
+			r = append(r, fmt.Sprintf("host: os.Setenv(%q, %q)%s", unhx(o.K), unhx(o.V), q))
+		case "hostunset":
+			r = append(r, fmt.Sprintf("host: os.Unsetenv(%q)%s", unhx(o.K), q))
 		case "req":
-			r = append(r, fmt.Sprintf("rt%d: require('process')", o.Rt))
+			r = append(r, fmt.Sprintf("rt%d: require('process')%s", o.Rt, q))
 		case "set":
 			r = append(r, fmt.Sprintf("rt%d: process.env[%q] = %q", o.Rt, unhx(o.K), unhx(o.V)))
 		default:
